@@ -48,6 +48,37 @@ def gen_cases(rng, tier):
                 if b.get("s") and not b.get("r") and rng.random() < 0.6:
                     b["r"] = [[x] for x in rng.sample(names, rng.randint(1, len(names)))]
             c["family"] = "scores:None+ranking"
+    # a budget overrun spread over FEW candidates (count <= k, every score <= L): only possible when L > 1
+    # (Limited, Cumulative, GeneralRating with L > k/2); the sum, not the count, must decide (seeded C05_f)
+    for _ in range(40 if tier == "quick" else 400):
+        rule = rng.choice(["Limited", "Cumulative", "GeneralRating"])
+        m = rng.choice([2, 3])
+        cfg = {"m": m, "tiebreak": rng.choice([None, "random"])}
+        if rule == "GeneralRating":
+            L, k = rng.choice([(Fraction(2), Fraction(3)), (Fraction(2), Fraction(2)), (Fraction(5), Fraction(5)), (Fraction(3, 2), Fraction(2))])
+            cfg.update(L=common.fstr(L), k=common.fstr(k))
+        elif rule == "Limited":
+            kk = rng.randint(2, m)
+            L, k = Fraction(kk), Fraction(kk)
+            cfg["k"] = common.fstr(k)
+        else:
+            L, k = Fraction(m), Fraction(m)
+        over = rng.random() < 0.7
+        jp, names = ruleslib.score_profile(rng, L=L, k=k, violate=None)
+        i = 0 if rng.random() < 0.5 else len(jp["ballots"]) - 1
+        a, b = rng.sample(names, 2)
+        eps = rng.choice([Fraction(1, 1000000), Fraction(1, 7), Fraction(1, 2)]) if over else Fraction(0)
+        hi = min(L, k)
+        lo = k - hi + eps
+        if lo == 0:
+            lo = Fraction(0)
+        sc = {a: common.fstr(hi)}
+        if lo > 0:
+            sc[b] = common.fstr(min(lo, L))
+        jp["ballots"][i]["s"] = sc
+        jp["ballots"][i]["r"] = None
+        cases.append({"rule": rule, "cfg": cfg, "profile": jp, "seed": rng.randrange(1 << 30),
+                      "family": "scores:over_k_few" if over else "scores:at_k_few"})
     return cases
 
 
